@@ -238,9 +238,9 @@ PROPS["C14"] = dict(
     groups=["token", "escape", "quote", "coltypes"],
     lean_props=["SeaQ.Props.C14", "SeaQ.Props.Ddl"],
     lean_obligations=["SeaQ.Lemmas.Scan", "SeaQ.Lemmas.SafeBasics", "SeaQ.Lemmas.Ctx", "SeaQ.Lemmas.RenderCtx", "SeaQ.Lemmas.DdlCtx"],
-    technique="Lean 4 model of the schema-statement renderer (Model/Ddl: CREATE / ALTER / DROP / RENAME / TRUNCATE TABLE, CREATE / DROP INDEX, ADD / DROP FOREIGN KEY; MySQL and Postgres dialects here) tied to the crate by differential runs of generated schema statements through build / to_string / build_any, with theorems for every statement of the model: the engine's lexer reads the rendered text item by item as written (ddl_read), CREATE TABLE is head + the ', '-separated list of all declared columns, keys, foreign keys and checks in order + tail (create_items, create_complete), every MySQL column specification is written in the order given (mysql_specs_all), unsigned types are the signed type + UNSIGNED, Postgres auto-increment columns are declared smallserial / serial / bigserial and the specification writes nothing; plus Lean 4 proofs over the MySQL / Postgres type-name tables regenerated from src/backend/{mysql,postgres}/table.rs on every run: every template of every supported ColumnType arm names a type the dialect defines in a form it defines (for all parameter values), parameters appear in the written name as their decimal digits and in declaration order, UNSIGNED follows exactly the unsigned variants, auto-increment is AUTO_INCREMENT / smallserial-serial-bigserial; whole statements are decided by a reference DDL grammar per dialect: the parse tree of every generated schema statement must equal the tree expected from the scenario (each column one type and each specification once, table-level elements, options, ALTER option separators, index / foreign-key / type / extension statements)",
+    technique="Lean 4 model of the schema-statement renderer (Model/Ddl: CREATE / ALTER / DROP / RENAME / TRUNCATE TABLE, CREATE / DROP INDEX, ADD / DROP FOREIGN KEY, Postgres CREATE / ALTER / DROP TYPE and CREATE / DROP EXTENSION; MySQL and Postgres dialects here) tied to the crate by differential runs of generated schema statements through build / to_string / build_any, with theorems for every statement of the model: the engine's lexer reads the rendered text item by item as written (ddl_read), CREATE TABLE is head + the ', '-separated list of all declared columns, keys, foreign keys and checks in order + tail (create_items, create_complete), every MySQL column specification is written in the order given (mysql_specs_all), unsigned types are the signed type + UNSIGNED, Postgres auto-increment columns are declared smallserial / serial / bigserial and the specification writes nothing; plus Lean 4 proofs over the MySQL / Postgres type-name tables regenerated from src/backend/{mysql,postgres}/table.rs on every run: every template of every supported ColumnType arm names a type the dialect defines in a form it defines (for all parameter values), parameters appear in the written name as their decimal digits and in declaration order, UNSIGNED follows exactly the unsigned variants, auto-increment is AUTO_INCREMENT / smallserial-serial-bigserial; whole statements are decided by a reference DDL grammar per dialect: the parse tree of every generated schema statement must equal the tree expected from the scenario (each column one type and each specification once, table-level elements, options, ALTER option separators, index / foreign-key / type / extension statements)",
     level_text="Machine-checked for every schema statement of the model: ddl_safe / ddl_read (lexical well-formedness under contentOK), create_items / create_complete, mysql_specs_all, mysql_unsigned, postgres_autoincrement_serial; type mapping obligations over the regenerated tables, lifted to all parameter values (params_in_text). Validated on generated statements: acceptance by the reference DDL grammar and tree equality with the declaration. The grammars and the per-dialect lists of defined types are the trusted specification (no MySQL / Postgres engine in the sandbox). That the text is a sentence of the dialect's grammar beyond the lexical level is decided by the reference grammar on generated statements, not by a theorem.",
-    level_note="The schema-statement model (Model/Ddl.lean) is hand-written from the crate's builders and validated against the crate on every run (4 000 generated statements per quick run, panics included); CREATE / ALTER / DROP TYPE and EXTENSION are not modelled (grammar oracle only). Trusted: Lean kernel; seaq-translate (syn) for the tables; SeaQ.Props.C14.mysqlDefined / postgresDefined (transcribed from the manuals); harness/src/c14.rs (reference grammar and expected trees) with the reference lexers.",
+    level_note="The schema-statement model (Model/Ddl.lean) is hand-written from the crate's builders and validated against the crate on every run (4 000 generated statements per quick run, panics included); Trusted: Lean kernel; seaq-translate (syn) for the tables; SeaQ.Props.C14.mysqlDefined / postgresDefined (transcribed from the manuals); harness/src/c14.rs (reference grammar and expected trees) with the reference lexers.",
     design_ref="§6 C14",
     scope="all parameter values for the mapping theorems; generated statements for the grammar",
 )
